@@ -90,9 +90,10 @@ pub enum Fault {
     // --- volume: hundreds of failures, one after the other (whatever counts, caches or leaks per failure shows only then)
     SrvManyFailedHandshakes,
     LocalManyFailedFlows,
+    LocalManyUdpApplications,
 }
 
-pub const ALL_FAULTS: [Fault; 40] = [
+pub const ALL_FAULTS: [Fault; 41] = [
     Fault::SrvConnectClose,
     Fault::SrvSilentHeld,
     Fault::SrvGarbageClose,
@@ -133,6 +134,7 @@ pub const ALL_FAULTS: [Fault; 40] = [
     Fault::ServerRestart,
     Fault::SrvManyFailedHandshakes,
     Fault::LocalManyFailedFlows,
+    Fault::LocalManyUdpApplications,
 ];
 
 impl Fault {
@@ -160,6 +162,7 @@ impl Fault {
             LinkDownWhileUdpBinding | LinkStalledWhileUdpBinding => e.chopper.is_some() && e.d.udp && !ss,
             ServerRestart => true,
             SrvManyFailedHandshakes | LocalManyFailedFlows => true,
+            LocalManyUdpApplications => e.d.udp,
         }
     }
 }
@@ -553,13 +556,27 @@ async fn apply(f: Fault, e: &mut Env, rng: &mut Rng, rep: &mut Report) -> Held {
         SrvDescriptorExhaustion | LocalDescriptorExhaustion => {
             // more connections than the process has descriptors for: accept() must start failing, then everything is closed
             let port = if f == SrvDescriptorExhaustion { sp } else { cp };
+            let t_exh = Instant::now();
             let mut v = Vec::new();
-            for _ in 0..(NOFILE as usize + 120) {
-                if let Some(s) = connect(port).await {
-                    v.push(s);
+            // (the kernel queues about 128 connections the process has not accepted; a connect beyond that waits for
+            // retransmitted SYNs: three misses in a row end the loop)
+            let mut misses = 0;
+            for _ in 0..(NOFILE as usize + 100) {
+                match tokio::time::timeout(Duration::from_millis(1200), TcpStream::connect(("127.0.0.1", port))).await {
+                    Ok(Ok(s)) => {
+                        misses = 0;
+                        v.push(s);
+                    }
+                    _ => {
+                        misses += 1;
+                        if misses >= 3 {
+                            break;
+                        }
+                    }
                 }
             }
             rep.mon("exhaustion_connections_opened", v.len() as u64);
+            rep.mon(&format!("ms_opening_the_connections:{}", f.name()), t_exh.elapsed().as_millis() as u64);
             if f == LocalDescriptorExhaustion {
                 // some of the applications behind those connections do ask for a flow while the client has no descriptor to
                 // spare: whatever the client tries to open for them (certificate file, socket) fails NOW - and only now
@@ -954,6 +971,26 @@ async fn apply(f: Fault, e: &mut Env, rng: &mut Rng, rep: &mut Report) -> Held {
             rep.mon("failed_handshakes_in_a_row_against_the_server", applied);
             tokio::time::sleep(Duration::from_millis(300)).await;
         }
+        LocalManyUdpApplications => {
+            // more applications than the client's binding table has places (64): 80 sockets, one exchange each, all kept open
+            // while the canary - one more application - runs
+            if let Some(tport) = e.udp_target.as_ref().map(|t| t.port) {
+                let mut served = 0u64;
+                let mut buf = vec![0u8; 4096];
+                for k in 0..80u16 {
+                    if let Ok(s) = UdpSocket::bind("127.0.0.1:0").await {
+                        let p = make_payload(e.nonce, 61000 + k, 0, 0, 80, 0);
+                        let _ = s.send_to(&socks5_udp("127.0.0.1", tport, &p), ("127.0.0.1", cp)).await;
+                        if tokio::time::timeout(Duration::from_millis(400), s.recv_from(&mut buf)).await.is_ok() {
+                            served += 1;
+                        }
+                        hold(&mut h, s);
+                    }
+                }
+                rep.mon("udp_applications_opened_in_a_row", 80);
+                rep.mon("udp_applications_opened_in_a_row_that_were_answered", served);
+            }
+        }
         LocalManyFailedFlows => {
             // 240 local flows that fail, one after the other; then 200 malformed and 100 undeliverable local datagrams
             let dead = free_port();
@@ -1125,11 +1162,15 @@ async fn one_config(a: Args, idx: usize, proto: Proto, transport: Transport, udp
             if reported.contains(&f) {
                 continue;
             }
+            let t_fault = Instant::now();
             let held = apply(f, &mut e, &mut rng, &mut rep).await;
+            rep.mon(&format!("ms_applying:{}", f.name()), t_fault.elapsed().as_millis() as u64);
             history.push(f);
             rep.mon("faults_applied", 1);
             rep.mon(&format!("fault:{}", f.name()), 1);
+            let t_check = Instant::now();
             let r = service_check(&mut e, 3, &mut rep).await;
+            rep.mon(&format!("ms_service_check_after:{}", f.name()), t_check.elapsed().as_millis() as u64);
             rep.case(&(idx, pass, f.name(), history.len()), true);
             drop(held);
             let Err(sym) = r else { continue };
